@@ -13,7 +13,9 @@
 // Set* / ImportConfig method found by reflection, histories of length 1 and 2 with arguments
 // from the family's lattice, the object compared with a fresh one at the final parameters;
 // independence from caller-owned objects (alias.go): constructor / SetParameters arguments and
-// getter results are mutated by the caller, the distribution must not move.
+// getter results are mutated by the caller, the distribution must not move; independence from the
+// storage of the evaluation point (storage.go): every container / element type / view that holds
+// the same point - zero coordinates included - must give the same log-density.
 package main
 
 import (
@@ -65,6 +67,10 @@ func tasks(th bool) []task {
 			if f.only == nil || f.only["alias"] {
 				ts = append(ts, task{fam: name, d: d, clauses: aliasClause})
 			}
+			// storage of the evaluation point (storage.go)
+			if f.only == nil || f.only["storage"] {
+				ts = append(ts, task{fam: name, d: d, clauses: storageClause})
+			}
 		}
 		if f.invalid != nil {
 			for _, iv := range f.invalid() {
@@ -87,7 +93,7 @@ func run(c *vf.Ctx) {
 				ni++
 			} else if t.clauses["history"] {
 				nh++
-			} else if t.clauses["alias"] {
+			} else if t.clauses["alias"] || t.clauses["storage"] {
 				continue
 			} else if t.holder == "" {
 				nv++
@@ -119,6 +125,10 @@ func run(c *vf.Ctx) {
 		}
 		if t.clauses["alias"] {
 			rp.checkAlias(t.d, rank)
+			continue
+		}
+		if t.clauses["storage"] {
+			rp.checkStorage(t.d, rank)
 			continue
 		}
 		rp.checkInstance(t.d, rank, t.clauses, t.holder)
@@ -157,6 +167,11 @@ func replay(c *vf.Ctx, raw json.RawMessage) {
 		fmt.Printf("replayed caller-object independence of %s (reported key: %s)\n", cs.Dist, cs.Key)
 		return
 	}
+	if cs.Clause == "storage" {
+		rp.checkStorage(cs.Dist, 0)
+		fmt.Printf("replayed storage independence of the evaluation point for %s (reported key: %s, first failing point %v held as %s)\n", cs.Dist, cs.Key, f64s(cs.X), cs.Form)
+		return
+	}
 	cl := map[string]bool{cs.Clause: true}
 	h := cs.Holder
 	if cs.Clause == "holder" {
@@ -181,8 +196,12 @@ func main() {
 			"Mutator histories: for every family, every exported method named Set* or ImportConfig of its type (found by reflection; those without an argument supplier are listed in the counters) x every start point of the valid lattice x every argument from the lattice (length 1), " +
 			"and every start point x every ordered pair of (mutator, argument) over a sub-lattice of <=8 (thorough 12) evenly spaced lattice points (length 2); after each history GetParameters, LogPdf on the probe points, the total mass (discrete families) and ExportConfig must equal those of an object built by the constructor at the modelled final parameters; a history is non-trivial when every step changes the modelled parameters. " +
 			"Caller-owned objects (alias.go): family x valid lattice point x holder {Float64, Real64, mixed} x route {every Scalar/Vector/Matrix argument of the constructor call, the vector given to SetParameters, the vector returned by GetParameters (fresh object / after SetParameters), every other zero-argument getter with a Scalar/Vector/Matrix result (reflection)} " +
-			"x object x mutation {set-valid: value at another lattice point, set-other: 0 or -1, Reset()} x {each element, all elements, all objects of the call}; LogPdf on the probe points, Cdf/LogCdf and GetParameters must be bit-identical before and after; non-trivial when the mutation really changed the caller's object and a probe point has a finite LogPdf",
+			"x object x mutation {set-valid: value at another lattice point, set-other: 0 or -1, Reset()} x {each element, all elements, all objects of the call}; LogPdf on the probe points, Cdf/LogCdf and GetParameters must be bit-identical before and after; non-trivial when the mutation really changed the caller's object and a probe point has a finite LogPdf. " +
+			"Storage of the evaluation point (storage.go): family x valid lattice point x holder x point x storage; points: (vector / matrix families) every zero pattern - all subsets of the coordinates (symmetric pairs for the inverse Wishart arguments) set to 0 - of the first 3 (thorough 8) lattice points without a zero coordinate per argument length, plus the family's whole point lattice when it has <= 128 (thorough 10000) points, (scalar families) the whole evaluation point set; " +
+			"storages: vectors {dense, sparse with zeros absent, sparse with zeros stored explicitly, SparseConst with zeros absent / stored explicitly} x element type {Float64, Real64, Float32, Real32, Int; thorough all 9; SparseConst Float64, Float32, Int; thorough all 7} x {whole container, Slice(1,n+1) of a longer one}; matrices {dense, sparse zeros absent / explicit} x element type x {whole, T() of the transposed container, inner Slice of a bordered container, both}; normal inverse Wishart: vector and matrix argument in the same container and type; scalars: the 9 scalar types and the 7 Const types; an element type takes part where it represents every coordinate exactly; " +
+			"LogPdf must agree with the result for the canonical storage of the other clauses (dense of the holder type / ConstFloat64 / Real64): same value bitwise or within 1e-10(1+|v|), a refusal only where the canonical storage refuses or gives -Inf, no runtime panic; evaluations run storage-major on one object (the canonical storage at every point, then storage by storage every point), so consecutive calls see different points; every (point, storage) other than the canonical one that really holds the point (Dim/ConstAt verified through the public API) is a distinct non-trivial case",
 		Assume: []string{
+			"storage of the evaluation point: LogPdf accepts a ConstVector / ConstMatrix / ConstScalar, so every container and element type that holds the point exactly is a legitimate way to hand it over; the value may differ in the last bits between containers (another route through the linear algebra), hence the 1e-10 relative band next to bitwise equality; an error or deliberate panic and -Inf are both accepted treatments of a point outside the support",
 			"textbook parametrisation is the one named by constructor argument names, struct comments and repository tests (sigma = standard deviation / scale, gamma(shape, rate), negative binomial p^k (1-p)^r, beta log-scale: argument log(theta), density w.r.t. theta)",
 			"geometric: p(1-p)^k on k = 0,1,2,... (no doc/test names the convention)",
 			"an error return or a deliberate panic is accepted as refusal for points outside the support and for invalid constructor arguments; runtime panics are not",
